@@ -66,7 +66,7 @@ func DefaultParameters() Parameters {
 }
 
 func (p *Parameters) Validate() error {
-	if p.trustingPeriod == 0 {
+	if p.trustingPeriod <= 0 {
 		return fmt.Errorf("invalid trustingPeriod duration: %v", p.trustingPeriod)
 	}
 	if p.SyncFromHash == "" && p.PruningWindow == 0 && p.SyncFromHeight == 0 {
